@@ -281,7 +281,11 @@ func fieldKey(structT types.Type, fld *types.Var) string {
 	if p, ok := t.(*types.Pointer); ok {
 		t = p.Elem()
 	}
-	return short(types.TypeString(t, nil)) + "." + fld.Name()
+	k := short(types.TypeString(t, nil)) + "." + fld.Name()
+	if a, ok := aliasFields[k]; ok {
+		return a
+	}
+	return k
 }
 
 // isFieldLoad reports whether v (after strip) loads field key "z.rowStore.memStore".
